@@ -32,7 +32,7 @@ pub fn prop() -> HistProp {
         quick: 5000,
         thorough: 40000,
         mk: |_, _, _| Box::new(C16 { allowance_op: false, hub_burn: false }),
-        extra: None,
+        extra: Some((1, |t| many_accounts_scenario_strategy(&prop().profile.clone()(t), cfg_strategy()))),
         many_batches: 0,
     }
 }
